@@ -114,12 +114,23 @@ class SymSet:
         self.items = items      # [(guard, SymStr|str)]
 
     def contains(self, s):
+        if isinstance(s, tuple) and s and s[0] == 'keyalt':
+            return z3.Or(*[z3.And(c, self.contains(k)) for c, k in s[1]]) if s[1] else z3.BoolVal(False)
+        if isinstance(s, SymStr):
+            if all(isinstance(it, str) for _, it in self.items):
+                return z3.Or(*[z3.And(zbool(g), s.eq_const(it)) for g, it in self.items]) if self.items else z3.BoolVal(False)
+            raise Unsupported('membership of a symbolic string in a symbolic set')
         if not isinstance(s, str):
-            raise Unsupported('membership of a symbolic string')
+            raise Unsupported('membership of %r' % (s,))
         return z3.Or(*[z3.And(g, str_eq(it, s)) for g, it in self.items]) if self.items else z3.BoolVal(False)
 
+    def is_const(self):
+        return all(isinstance(it, str) and z3.is_true(z3.simplify(zbool(g))) for g, it in self.items)
+
     def nonempty_intersection(self, other):
-        # other must be a set of constants
+        # one of the two must be a set of constants
+        if self.is_const() and not other.is_const():
+            return other.nonempty_intersection(self)
         consts = []
         for g, it in other.items:
             if not isinstance(it, str) or not z3.is_true(z3.simplify(zbool(g))):
@@ -159,6 +170,15 @@ def merge(paths):
                 if k not in keys:
                     keys.append(k)
         return {k: merge([(c, v.get(k, 0)) for c, v in paths]) for k in keys}
+    if all(isinstance(v, str) or (isinstance(v, tuple) and v and v[0] == 'keyalt') for _, v in paths):
+        # a string chosen by the path (e.g. a function returning the NAME of a bucket): guarded alternatives
+        alts = []
+        for c, v in paths:
+            if isinstance(v, str):
+                alts.append((c, v))
+            else:
+                alts.extend((z3.And(c, ci), si) for ci, si in v[1])
+        return ('keyalt', alts)
     if all(isinstance(v, bool) or z3.is_bool(v) for _, v in paths):
         out = zbool(paths[-1][1])
         for c, v in reversed(paths[:-1]):
@@ -411,9 +431,25 @@ class PyModule:
             return SymSet(items)
         if isinstance(n, ast.Call):
             if isinstance(n.func, ast.Attribute):
+                if isinstance(n.func.value, ast.Name) and n.func.value.id == 'dict' and 'dict' not in env and n.func.attr == 'fromkeys' and len(n.args) in (1, 2):
+                    keys = self._eval(n.args[0], env)
+                    if isinstance(keys, SymSet) and all(isinstance(x, str) and z3.is_true(z3.simplify(zbool(g))) for g, x in keys.items):
+                        keys = tuple(x for _, x in keys.items)
+                    if not (isinstance(keys, tuple) and all(isinstance(k, str) for k in keys)):
+                        raise Unsupported('dict.fromkeys over non-constant keys')
+                    v0 = self._eval(n.args[1], env) if len(n.args) == 2 else None
+                    return {k: v0 for k in keys}
                 obj = self._eval(n.func.value, env)
                 if n.func.attr == 'lower' and not n.args:
                     return str_lower(obj)
+                if n.func.attr in ('isdisjoint', 'intersection') and len(n.args) == 1 and isinstance(obj, SymSet):
+                    other = self._eval(n.args[0], env)
+                    if isinstance(other, tuple) and all(isinstance(x, str) for x in other):
+                        other = const_set(list(other))
+                    if not isinstance(other, SymSet):
+                        raise Unsupported('set method on a non-set argument')
+                    ne = obj.nonempty_intersection(other)
+                    return z3.Not(ne) if n.func.attr == 'isdisjoint' else ('nonempty?', ne)
                 raise Unsupported('python method ' + n.func.attr)
             if isinstance(n.func, ast.Name):
                 f = n.func.id
@@ -699,6 +735,13 @@ class JsModule:
             return d
         if t == 'ArrayExpression' and not n['elements']:
             return SymList(z3.BoolVal(True), z3.IntVal(0), [])
+        if t == 'ArrayExpression' and len(n['elements']) == 1 and n['elements'][0]['type'] == 'SpreadElement':
+            v = self._eval(n['elements'][0]['argument'], env)       # [...set]: the elements of the set, as a sequence
+            if isinstance(v, SymSet):
+                return v
+            raise Unsupported('spread of a non-set')
+        if t == 'ArrayExpression' and all(e is not None and e['type'] == 'Literal' and isinstance(e.get('value'), str) for e in n['elements']):
+            return const_set([e['value'] for e in n['elements']])
         if t == 'LogicalExpression':
             a = self._eval(n['left'], env)
             if n['operator'] == '||' and isinstance(a, SymList) and n['right']['type'] == 'ArrayExpression' and not n['right']['elements']:
@@ -755,6 +798,23 @@ class JsModule:
                     return obj.contains(self._eval(n['arguments'][0], env))
                 if m == 'toLowerCase' and not n['arguments']:
                     return str_lower(obj)
+                if m in ('some', 'every') and isinstance(obj, (SymSet, SymList)) and len(n['arguments']) == 1:
+                    f = n['arguments'][0]
+                    if f['type'] != 'ArrowFunctionExpression' or len(f['params']) != 1 or f['body']['type'] == 'BlockStatement':
+                        raise Unsupported(m + ' callback shape')
+                    var = f['params'][0]['name']
+                    pairs = obj.guarded_items() if isinstance(obj, SymList) else list(obj.items)
+                    terms = []
+                    for g, x in pairs:
+                        e2 = dict(env)
+                        e2[var] = x
+                        t_ = self._truth(self._eval(f['body'], e2))
+                        terms.append(z3.And(zbool(g), t_) if m == 'some' else z3.Implies(zbool(g), t_))
+                    if m == 'some':
+                        return z3.Or(*terms) if terms else z3.BoolVal(False)
+                    return z3.And(*terms) if terms else z3.BoolVal(True)
+                if m == 'includes' and isinstance(obj, SymSet) and len(n['arguments']) == 1:
+                    return obj.contains(self._eval(n['arguments'][0], env))
                 if m == 'map' and isinstance(obj, SymList) and len(n['arguments']) == 1:
                     f = n['arguments'][0]
                     if f['type'] != 'ArrowFunctionExpression' or len(f['params']) != 1 or f['body']['type'] == 'BlockStatement':
